@@ -841,3 +841,204 @@ Section Runs.
     - intros k Hk. cbn [app]. apply Hall. lia.
   Qed.
 End Runs.
+
+(* ---------- safety invariants: the cursor stays inside the buffer, the body is made of
+   consumed bytes, the loop fuel is never exhausted ---------- *)
+
+Lemma body_cl_bounds cl body bs rest :
+  match body_cl cl body bs rest with
+  | BAgain b' _ c => c <= length rest /\ length b' <= length body + c
+  | BDone b' c => c <= length rest /\ length b' <= length body + c
+  | BErr _ b' => b' = body
+  end.
+Proof.
+  unfold body_cl.
+  destruct (N.ltb_spec (N.of_nat (length rest)) (if (0 <? b_read bs)%N then (cl - b_read bs)%N else cl)).
+  - rewrite app_length. lia.
+  - rewrite app_length, firstn_length. lia.
+Qed.
+
+Lemma chunk_data_bounds size already body rest :
+  (already <= size)%N ->
+  match chunk_data size already body rest 0 with
+  | CIncomplete b' _ c => c <= length rest /\ length b' <= length body + c
+  | CComplete b' c => 2 <= c <= length rest /\ length b' <= length body + c
+  | CFinal c => c <= length rest
+  | CThrow => True
+  end.
+Proof.
+  intros Hwf. unfold chunk_data. destruct (size =? 0)%N.
+  - destruct (Nat.ltb_spec (length rest) 2); lia.
+  - destruct (Z.ltb_spec (Z.of_nat (length rest) - 2) (Z.of_N size - Z.of_N already));
+      rewrite app_length, firstn_length; lia.
+Qed.
+
+Lemma chunk_parse_bounds ch body rest :
+  wf_chunk ch ->
+  match chunk_parse ch body rest with
+  | CIncomplete b' _ c => c <= length rest /\ length b' <= length body + c
+  | CComplete b' c => 2 <= c <= length rest /\ length b' <= length body + c
+  | CFinal c => c <= length rest
+  | CThrow => True
+  end.
+Proof.
+  intros Hwf. unfold chunk_parse. destruct ch as [[size already]|].
+  - apply chunk_data_bounds. exact Hwf.
+  - destruct (find_eol rest) as [i|] eqn:Ei; [|cbn; lia].
+    destruct (find_eol_app rest [] i Ei) as [_ Hi].
+    destruct (strtol_all 16 (firstn i rest)) as [z|]; [|exact I].
+    destruct (z <? 0)%Z; [exact I|].
+    rewrite chunk_data_pre.
+    pose proof (chunk_data_bounds (Z.to_N z) 0 body (skipn (i + 2) rest) ltac:(lia)) as Hc.
+    rewrite skipn_length in Hc.
+    destruct (chunk_data (Z.to_N z) 0 body (skipn (i + 2) rest) 0); cbn [cshift]; lia.
+Qed.
+
+(* the marker returned when the loop fuel runs out *)
+Definition out_of_fuel (r : bres) : Prop := match r with BErr EExc _ => True | _ => False end.
+
+Lemma chunk_loop_bounds : forall f ch body rest pre rd,
+  wf_chunk ch -> length rest < f ->
+  match chunk_loop f ch body rest pre rd with
+  | BAgain b' bs' c => pre <= c <= pre + length rest /\ length b' + pre <= length body + c
+                        /\ wf_chunk (b_chunk bs')
+  | BDone b' c => pre <= c <= pre + length rest /\ length b' + pre <= length body + c
+  | BErr e _ => e = EHttp 400
+  end.
+Proof.
+  induction f as [|f IH]; intros ch body rest pre rd Hwf Hf; [lia|].
+  rewrite chunk_loop_S.
+  pose proof (chunk_parse_bounds ch body rest Hwf) as Hb.
+  pose proof (chunk_parse_merge ch body rest [] ) as Hm.
+  destruct (chunk_parse ch body rest) as [b1 ch1 c1|b1 c1|c1|] eqn:Ecp.
+  - destruct (Hm b1 ch1 c1 eq_refl) as [_ [Hw _]]. cbn [b_chunk]. split; [lia|]. split; [lia|auto].
+  - destruct (skipn c1 rest) as [|x r'] eqn:Es.
+    + cbn [b_chunk]. split; [lia|]. split; [lia|exact I].
+    + rewrite <- Es.
+      assert (Hlen : length (skipn c1 rest) < f) by (rewrite skipn_length; lia).
+      pose proof (IH None b1 (skipn c1 rest) (pre + c1) rd I Hlen) as IH'.
+      rewrite skipn_length in IH'.
+      destruct (chunk_loop f None b1 (skipn c1 rest) (pre + c1) rd); [| |exact IH'].
+      * destruct IH' as [H1 [H2 H3]]. split; [lia|]. split; [lia|exact H3].
+      * destruct IH' as [H1 H2]. split; lia.
+  - split; lia.
+  - reflexivity.
+Qed.
+
+Lemma body_step_bounds m bs rest :
+  wf_chunk (b_chunk bs) ->
+  match body_step m bs rest with
+  | BAgain b' bs' c => c <= length rest /\ length b' <= length (m_body m) + c /\ wf_chunk (b_chunk bs')
+  | BDone b' c => c <= length rest /\ length b' <= length (m_body m) + c
+  | BErr e b' => ~ out_of_fuel (BErr e b')
+  end.
+Proof.
+  intros Hwf. unfold body_step.
+  destruct (typed_get m id_content_length) as [cl|]; destruct (typed_get m id_transfer_encoding) as [te|].
+  - cbn. auto.
+  - pose proof (body_cl_bounds (cl_value cl) (m_body m) bs rest) as Hb.
+    unfold body_cl in *. destruct (_ <? _)%N; cbn [b_chunk]; intuition.
+  - destruct (te_is_chunked te); [|cbn; auto].
+    pose proof (chunk_loop_bounds (S (length rest)) (b_chunk bs) (m_body m) rest 0 (b_read bs) Hwf
+                  (Nat.lt_succ_diag_r _)) as Hb.
+    destruct (chunk_loop (S (length rest)) (b_chunk bs) (m_body m) rest 0 (b_read bs)).
+    + destruct Hb as [H1 [H2 H3]]. split; [lia|]. split; [lia|exact H3].
+    + destruct Hb as [H1 H2]. split; lia.
+    + subst e. cbn. auto.
+  - split; lia.
+Qed.
+
+Section Safety.
+  Variable typed_other : N -> bytes -> option err.
+  Variable set_cookie : bytes -> option (bytes * bytes).
+  Variable kd : kind.
+  Notation parse := (parse typed_other set_cookie kd).
+
+  (* cursor inside the buffer, chunk progress within the chunk, body made of consumed bytes *)
+  Definition safe_p (st : pstate) : Prop :=
+    wf_p st /\ length (m_body (p_msg st)) <= p_cur st.
+
+  Definition ok_result (r : pres * pstate) : Prop :=
+    match r with
+    | (PErr _, _) => True      (* the caller resets the parser *)
+    | (_, st') => safe_p st' /\ p_step st' <= 2
+    end.
+
+  Lemma parse2_safe st : safe_p st -> ok_result (parse2 st).
+  Proof.
+    intros [[Hc Hw] Hb]. unfold parse2.
+    pose proof (body_step_bounds (p_msg st) (p_bs st) (skipn (p_cur st) (p_buf st)) Hw) as H.
+    rewrite skipn_length in H.
+    destruct (body_step (p_msg st) (p_bs st) (skipn (p_cur st) (p_buf st))); cbn [ok_result]; [| |exact I].
+    - destruct H as [H1 [H2 H3]]. split; [|cbn; lia]. split; [split|]; cbn; [lia|exact H3|lia].
+    - destruct H as [H1 H2]. split; [|cbn; lia]. split; [split|]; cbn; [lia|exact I|lia].
+  Qed.
+
+  Lemma restart_safe (r : ares eff fin) next st k :
+    safe_p st -> p_step st <= 2 ->
+    (forall f n e, r = ASettled f n e -> p_cur st + n <= length (p_buf st)) ->
+    (forall st', safe_p st' -> p_step st' = next -> ok_result (k st')) ->
+    ok_result (restart_step r next st k).
+  Proof.
+    intros [[Hc Hw] Hb] Hs Hn Hk. unfold restart_step.
+    destruct r as [e|[|er] n e]; cbn [ok_result aeffs].
+    - split; [|cbn; exact Hs]. split; [split|]; cbn; [exact Hc|exact Hw|rewrite apply_body; exact Hb].
+    - apply Hk; [|reflexivity]. split; [split|]; cbn; [apply (Hn _ _ _ eq_refl)|exact Hw|rewrite apply_body; lia].
+    - exact I.
+  Qed.
+
+  Theorem parse_safe st : safe_p st -> p_step st <= 2 -> ok_result (parse st).
+  Proof.
+    intros Hsafe Hs. pose proof Hsafe as [[Hc Hw] Hb].
+    unfold ParserModel.parse. destruct (p_step st) as [|[|n]] eqn:E.
+    - unfold ParserModel.parse0. apply restart_safe; [exact Hsafe|lia| |].
+      + intros f n e He. apply (ls_consumed kd) in He. rewrite skipn_length in He. lia.
+      + intros st1 Hs1 E1. unfold ParserModel.parse1. apply restart_safe; [exact Hs1|lia| |].
+        * intros f n e He. apply (hs_consumed typed_other set_cookie) in He. rewrite skipn_length in He.
+          destruct Hs1 as [[Hc1 _] _]. lia.
+        * intros st2 Hs2 _. apply parse2_safe. exact Hs2.
+    - unfold ParserModel.parse1. apply restart_safe; [exact Hsafe|lia| |].
+      + intros f n e He. apply (hs_consumed typed_other set_cookie) in He. rewrite skipn_length in He. lia.
+      + intros st2 Hs2 _. apply parse2_safe. exact Hs2.
+    - apply parse2_safe. exact Hsafe.
+  Qed.
+
+  Lemma safe_feed st b : safe_p st -> safe_p (feed_raw st b).
+  Proof. intros [Hw Hb]. split; [apply wf_feed; exact Hw|exact Hb]. Qed.
+
+  Lemma safe_init : safe_p pstate_init.
+  Proof. split; [split|]; cbn; [lia|exact I|lia]. Qed.
+
+  (* every state an incremental run passes through is safe *)
+  Theorem run_inc_safe : forall segs st,
+    safe_p st -> p_step st <= 2 ->
+    match last (fst (run_inc typed_other set_cookie kd st segs)) PAgain with
+    | PErr _ => True
+    | _ => safe_p (snd (run_inc typed_other set_cookie kd st segs))
+    end.
+  Proof.
+    induction segs as [|s rest IH]; intros st Hsafe Hs; [exact Hsafe|].
+    cbn [ParserModel.run_inc].
+    pose proof (parse_safe (feed_raw st s) (safe_feed st s Hsafe) Hs) as Hok.
+    destruct (parse (feed_raw st s)) as [r st1]. destruct r; cbn [ok_result] in Hok.
+    - destruct Hok as [Hs1 Hst1]. specialize (IH st1 Hs1 Hst1).
+      destruct (run_inc typed_other set_cookie kd st1 rest) as [rs st2]. cbn [fst snd] in *.
+      destruct rs as [|r0 rs']; [exact IH|]. exact IH.
+    - cbn. apply Hok.
+    - exact I.
+  Qed.
+
+  (* what the two reserve() calls of BodyStep ask for, as written in the C++ *)
+  Definition reserve_cl (cl : N) (rest : bytes) : N := N.min cl (N.of_nat (length rest)).
+  Definition reserve_chunk (body rest : bytes) (size already : N) : Z :=
+    (Z.of_nat (length body) + Z.min (Z.of_nat (length rest)) (Z.of_N size - Z.of_N already))%Z.
+
+  Theorem reservations_bounded st cl size already :
+    safe_p st ->
+    let rest := skipn (p_cur st) (p_buf st) in
+    (reserve_cl cl rest <= N.of_nat (length (p_buf st)))%N /\
+    (reserve_chunk (m_body (p_msg st)) rest size already <= Z.of_nat (length (p_buf st)))%Z.
+  Proof.
+    intros [[Hc Hw] Hb] rest. unfold reserve_cl, reserve_chunk, rest. rewrite skipn_length. lia.
+  Qed.
+End Safety.
